@@ -73,6 +73,45 @@ func main() {
 				})
 				e.Str("mustOpenFileFlags", flags, "mustOpenFile: flags of os.OpenFile")
 			}
+			if fd := f.Func("Active", "Replay"); fd == nil {
+				e.Missing("replayCancelBody", "Active.Replay not found")
+			} else {
+				var body []string
+				found := false
+				ast.Inspect(fd.Body, func(n ast.Node) bool {
+					if cc, ok := n.(*ast.CommClause); ok && cc.Comm != nil && strings.Contains(f.Render(cc.Comm), "ctx.Done()") && !found {
+						found = true
+						for _, st := range cc.Body {
+							body = append(body, f.Render(st))
+						}
+					}
+					return true
+				})
+				if !found {
+					e.Missing("replayCancelBody", "no `case <-ctx.Done()` in Active.Replay")
+				} else {
+					e.Strs("replayCancelBody", body, "Active.Replay: statements of the `case <-ctx.Done()` branch")
+				}
+				// what follows the replay loop, in order
+				var after []string
+				seenLoop := false
+				for _, st := range fd.Body.List {
+					if l, ok := st.(*ast.LabeledStmt); ok {
+						if _, isFor := l.Stmt.(*ast.ForStmt); isFor {
+							seenLoop = true
+							continue
+						}
+					}
+					if _, ok := st.(*ast.ForStmt); ok {
+						seenLoop = true
+						continue
+					}
+					if seenLoop {
+						after = append(after, sealfacts.KeepCalls(f, st, "wg.Wait", "f.truncateTail", "ctx.Err")...)
+					}
+				}
+				e.Strs("replayAfterLoop", after, "Active.Replay: calls after the replay loop")
+			}
 			if fd := f.Func("Active", "Suicide"); fd == nil {
 				e.Missing("activeSuicideBranches", "Active.Suicide not found")
 			} else {
